@@ -428,11 +428,17 @@ class HttpParser(abc.ABC, Generic[_MsgT]):
                         if SEC_WEBSOCKET_KEY1 in msg.headers:
                             raise InvalidHeader(SEC_WEBSOCKET_KEY1)
 
-                        upgraded = msg.upgrade and _is_supported_upgrade(msg.headers)
-
                         method = getattr(msg, "method", self.method)
                         # code is only present on responses
                         code = getattr(msg, "code", 0)
+
+                        # (A response switches protocols with 101 only: upgrade
+                        # headers on any other status are just headers.)
+                        upgraded = (
+                            msg.upgrade
+                            and _is_supported_upgrade(msg.headers)
+                            and code in (0, 101)
+                        )
 
                         assert self.protocol is not None
                         # calculate payload
